@@ -76,6 +76,15 @@ let run () =
          | QValue None -> out "none"
          | QNoVersion -> out "noversion"
          | QNoStore -> out "err")
+      | ["V"; st; k; h] ->
+        (* CacheMultiStoreWithVersion: every substore must hold that version, then the value committed there *)
+        let hz = z_of_string h in
+        if not (List.for_all (fun (_, t) -> vget t.t_disk hz <> None) (!ms).ms_trees) then out "noversion"
+        else (match ms_query !ms (nm st) (bz k) hz with
+         | QValue (Some v) -> out ("val=" ^ hx v)
+         | QValue None -> out "none"
+         | QNoVersion -> out "noversion"
+         | QNoStore -> out "err")
       | _ -> ()
     done
   with End_of_file -> ())
